@@ -355,3 +355,11 @@ Qed.
 
 Lemma qs_starts_app q1 q2 : qs_starts (q1 ++ q2) = qs_starts q1 ++ qs_starts q2.
 Proof. unfold qs_starts. apply flat_map_app. Qed.
+
+(* the parts follow the component types: one part per component, then the rest as raw octets *)
+Fixpoint parts_shape (cts : list ctype) (ps : list lpart) : Prop :=
+  match cts with
+  | [] => match ps with [] => True | [LPRaw _ d] => d <> [] | _ => False end
+  | CtFixed k :: r => match ps with LPRaw _ d :: ps' => length d = k /\ parts_shape r ps' | _ => False end
+  | ct :: r => match ps with LPName _ comp :: ps' => comp = is_comp ct /\ parts_shape r ps' | _ => False end
+  end.
